@@ -161,3 +161,35 @@ def endWellBehaved (endRe : Re) : Bool :=
   (starBody endRe).isSome && !canStart endRe '\n'
 
 end Spec
+
+namespace Spec
+open Py Model
+
+/-! ### header blocks whose tag lines are closed (hypothesis of `C07_file`) -/
+
+/-- A line is *closed* for a tag: it does not hold `TAG[ \t]`, or the value the reader takes from
+    the line alone is not empty and tail-safe (so the same value is read whatever follows the
+    line: END matches the rest of the line, and no tail of the value can begin a run of
+    terminators that continues on the next lines — `…MIT"` followed by `\n>` is not closed). -/
+def lineClosed (endRe : Re) (tag l : Text) : Bool :=
+  match findTagInLine tag l with
+  | none => true
+  | some (_, a) =>
+    match valueAndRestWith endRe (a.dropWhile isBlank) with
+    | some (w, _) => !w.isEmpty && tailSafe endRe w
+    | none => false
+
+/-- `P` holds of every line (pieces between line feeds; `acc` is the current line, reversed) -/
+def allLines (P : Text → Bool) : Text → Text → Bool
+  | acc, [] => P acc.reverse
+  | acc, c :: cs => if c == '\n' then P acc.reverse && allLines P [] cs else allLines P (c :: acc) cs
+
+/-- every line of the block is closed for both tags -/
+def tagLinesClosed (endRe : Re) (hdr : Text) : Bool :=
+  allLines (lineClosed endRe Generated.licenseTag) [] hdr &&
+  allLines (lineClosed endRe Generated.contributorTag) [] hdr
+
+/-- the tag contains a character END can never consume (so END cannot run across a tag line) -/
+def tagUnusable (endRe : Re) (tag : Text) : Bool := tag.any fun c => !mayUse endRe c
+
+end Spec
